@@ -486,7 +486,30 @@ class DFsub0(DFbase0):
     b: int = attrs.field(default=0, validator=_rec)
 
 
-VAL_ONLY = (DFv, DFvl, ASvs, DFd, DFfalsy, ASfalsy, DFpriv, ASalias, DFsub0)
+@attrs.define
+class DFplainsub(DFv):
+    """the validated field is inherited, the subclass adds only a plain field (implicit define on_setattr) ..."""
+    note: str = "n"
+
+
+@attrs.define
+class DFemptysub(DFv):
+    """... or nothing at all ..."""
+
+
+@attrs.define
+class DFplainsub2(DFplainsub):
+    """... also one level further down; assignment to the inherited field must still validate"""
+    more: int = 0
+
+
+@attrs.define(slots=False)
+class DFplainsubdict(DFv):
+    note: str = "n"
+
+
+VAL_ONLY = (DFv, DFvl, ASvs, DFd, DFfalsy, ASfalsy, DFpriv, ASalias, DFsub0,
+            DFplainsub, DFemptysub, DFplainsub2, DFplainsubdict)
 _ASSIGN_FIELD = {"DFd": "z", "DFpriv": "_p", "DFsub0": "b"}
 
 NONBOOL_POOL = [1, 0, None, "yes", 1.0]
